@@ -104,6 +104,7 @@ type metadataEntry struct {
 	children   map[string]childEntry
 	chunks     []chunkEntry
 	nextOffset int64
+	implicit   bool // directory created as a parent of another entry, not (yet) by its own TOC entry
 }
 
 func getNodes(tx *bolt.Tx, fsID string) (*bolt.Bucket, error) {
